@@ -125,7 +125,10 @@ class Document(Binding):
 
         """
         if isinstance(object, (list, tuple)):
-            return [self.mkparam(method, pdef, item) for item in object]
+            params = [self.mkparam(method, pdef, item) for item in object]
+            # An item left out by the marshaller (None for an optional
+            # element) is left out here as well.
+            return [p for p in params if p is not None]
         return super(Document, self).mkparam(method, pdef, object)
 
     def param_defs(self, method):
